@@ -226,6 +226,20 @@ Zo :: enum(*T)
     Som *T,
     Non,
 end
+Zbx :: blob {
+    v: *,
+}
+Zbn :: blob {
+    l: [*],
+    h: fn * -> void,
+}
+Zex :: enum
+    Wrap *,
+    Nil2,
+end
+Zbo :: blob {
+    inner: Zbx,
+}
 """
 
 
@@ -795,6 +809,44 @@ C03_KINDS = {
     "generic-local-tuple-add": (None, ['zglocal("a")']),
     "generic-tuple-neg-unused": (None, ['zgneg2("a")']),
     "ret-type":       (None, None),      # needs the slot's return type: see c03_plants
+}
+
+
+def _implicit_kinds():
+    """blobs / enums with IMPLICIT type parameters (a field typed `*`, also nested: `[*]`, `fn * -> void`, an enum
+    payload `*`): two different instantiations that both went through an annotation of the bare type name meet in
+    every unification site.  Must be rejected; the same with one instantiation must be accepted (kind "ok:...")."""
+    bad = ['zi1: Zbx : Zbx { v: 1 }', 'zi2: Zbx : Zbx { v: "one" }']
+    good = ['zi1: Zbx : Zbx { v: 1 }', 'zi2: Zbx : Zbx { v: 2 }']
+
+    def sites(d):
+        return {
+            "list":     d + ['zi3 :: [zi1, zi2]'],
+            "assign":   [d[0].replace(" : Zbx {", " = Zbx {"), d[1], 'zi1 = zi2'],
+            "branch":   d + ['zi3 :: (if true do zi1 else zi2 end)'],
+            "arg-pair": d + ['zif :: fn p: Zbx, q: Zbx do', '    zl :: [p, q]', 'end', 'zif(zi1, zi2)'],
+            "arg-use":  [d[1], 'zig :: fn p: Zbx -> int do', '    p.v + 1', 'end', 'zig(zi2)'],
+            "return":   d + ['zir :: fn b: bool -> Zbx do', '    if b do', '        ret zi1', '    end', '    ret zi2', 'end'],
+            "equ":      d + ['zi1 == zi2'],
+            "field":    d + ['zo1 :: Zbo { inner: zi1 }', 'zo2 :: Zbo { inner: zi2 }', 'zi3 :: [zo1, zo2]'],
+            "use-after": d + ['zi3 :: [zi1, zi2]', 'zi2.v + 1'],
+        }
+    out = {}
+    for k, v in sites(bad).items():
+        out["implicit-" + k] = (None, v)
+    for k, v in sites(good).items():
+        out["ok:implicit-" + k] = (None, v)
+    hf = 'h: fn x: int do end'
+    out["implicit-nested-list"] = (None, ['zj1: Zbn : Zbn { l: [1], %s }' % hf, 'zj2: Zbn : Zbn { l: ["s"], %s }' % hf, 'zj3 :: [zj1, zj2]'])
+    out["implicit-nested-fn"] = (None, ['zj1: Zbn : Zbn { l: [1], %s }' % hf, 'zj2: Zbn : Zbn { l: [2], h: fn x: str do end }', 'zj3 :: [zj1, zj2]'])
+    out["ok:implicit-nested"] = (None, ['zj1: Zbn : Zbn { l: [1], %s }' % hf, 'zj2: Zbn : Zbn { l: [2], %s }' % hf, 'zj3 :: [zj1, zj2]'])
+    out["implicit-enum-payload"] = (None, ['ze1: Zex : Zex.Wrap 1', 'ze2: Zex : Zex.Wrap "s"', 'ze3 :: [ze1, ze2]'])
+    out["ok:implicit-enum-payload"] = (None, ['ze1: Zex : Zex.Wrap 1', 'ze2: Zex : Zex.Wrap 2', 'ze3 :: [ze1, ze2, Zex.Nil2]'])
+    return out
+
+
+C03_KINDS.update(_implicit_kinds())
+C03_KINDS.update({
     # compound assignment on a type without that operator, also with the SAME variable on both sides
     "compound-self-bool-add": (None, ['zc1 := true', 'zc1 += zc1']),
     "compound-self-str-sub":  (None, ['zc2 := "s"', 'zc2 -= zc2']),
@@ -810,7 +862,7 @@ C03_KINDS = {
     "compound-captured-self": (None, ['zc9 := "s"', 'zf9 :: fn do', '    zc9 -= zc9', 'end']),
     "compound-captured":      (None, ['zc9 := true', 'zf9 :: fn do', '    zc9 += true', 'end']),
     "compound-global-self":   (None, ['zmb -= zmb']),
-}
+})
 
 
 def c03_plants(tmpl, kinds=None):
@@ -842,7 +894,8 @@ def c03_plants(tmpl, kinds=None):
                         out.append((k, "S", i, info, st))
                     continue
                 if d.get("pure") == "1" and (k in ("loop-cond", "assign-type", "void-store", "param-type", "var-type")
-                                             or k.startswith("compound") or k.startswith("generic")):
+                                             or k.startswith("compound") or k.startswith("generic")
+                                             or "implicit" in k):
                     continue        # mutable definitions / impure calls are rejected in pure functions anyway
                 out.append((k, "S", i, info, st))
         if k == "ret-type":
@@ -1180,6 +1233,70 @@ def _convert_all(ph):
         return list(ex.map(_convert_one, ph, chunksize=max(1, len(ph) // (4 * vlib.NCPU))))
 
 
+MODEL_CASE_LIMIT = 4.0     # seconds of wall time the extracted model may spend on one case
+
+
+def _model_shard(exe, cases, limit):
+    """one driver process over `cases`; a case that produces no line within `limit` seconds is reported as TIMEOUT
+    (the process is killed and restarted on the next case).  The eager-representative union of the model is
+    quadratic, so a few very large generated programs take minutes where the real checker takes milliseconds."""
+    import os
+    import select
+    import subprocess
+    import time
+    import vlib
+    out = []
+    start = 0
+    while start < len(cases):
+        path = vlib.tmpfile(".cases")
+        with open(path, "w") as f:
+            f.write("\n".join(cases[start:]) + "\n")
+        p = subprocess.Popen([exe, "id", path], stdout=subprocess.PIPE, stderr=subprocess.DEVNULL)
+        buf = b""
+        got = 0
+        timed_out = False
+        deadline = time.time() + limit + 2.0        # start-up allowance for the first case
+        try:
+            while start + got < len(cases):
+                nl = buf.find(b"\n")
+                if nl >= 0:
+                    out.append(buf[:nl].decode("ascii", "replace"))
+                    buf = buf[nl + 1:]
+                    got += 1
+                    deadline = time.time() + limit
+                    continue
+                remaining = deadline - time.time()
+                if remaining <= 0:
+                    timed_out = True
+                    break
+                r, _, _ = select.select([p.stdout], [], [], remaining)
+                if not r:
+                    timed_out = True
+                    break
+                chunk = os.read(p.stdout.fileno(), 65536)
+                if not chunk:
+                    break           # the process ended (crash) before all cases were answered
+                buf += chunk
+        finally:
+            p.kill()
+            p.wait()
+            try:
+                os.remove(path)
+            except OSError:
+                pass
+        start += got
+        if start < len(cases):
+            out.append("TIMEOUT" if timed_out else "CRASH")
+            start += 1
+    return out
+
+
+def run_model(exe, cases, limit=None):
+    import vlib
+    lim = limit or MODEL_CASE_LIMIT
+    return vlib.sharded(lambda cs: _model_shard(exe, cs, lim), cases)
+
+
 def tie_cases(exe, cases, chunk=1500):
     """cases: [(label, case_line)].  Runs `phases` (real front end + real type checker) and, for every case that
     reached the type checker, the extracted model on the real compiler's own `vars` + `ordered` dump.
@@ -1218,10 +1335,16 @@ def _tie_chunk(exe, cases):
         idx.append(i)
         rec["reached"] = True
         rec["real"] = real_verdict(tail)
-    mod = vlib.model(exe, ["id"], sx) if sx else []
+    mod = run_model(exe, sx) if sx else []
     need_map = []
     for i, m in zip(idx, mod):
         rec = out[i]
+        if m in ("TIMEOUT", "CRASH"):
+            # the model did not answer in time: the case is skipped (counted, never taken as agreement)
+            rec["model"] = (m,)
+            rec["reached"] = False
+            rec["real"] = ("model-" + m.lower(),) + tuple(rec["real"])
+            continue
         if m.startswith("ERR"):
             f = m.split(" ")[1].split("|")
             rec["model"] = ("ERR", f[0], int(f[1]), int(f[2]))
